@@ -488,13 +488,13 @@ def gen_scope(rng) -> dict[str, Any]:
 
 PATH_DATA = {
     "d": {"a": {"b": [1, 2, {"c": "deep"}], "size": "keysize"}, "list": ["p", "q", "r"], "x y": "spaced", "first": "keyfirst", "s": "hello", "e": [], "n": None, "0": "zero-key", "t": True, "size": "topsize"},
-    "xs": [10, 20, 30], "s": "hello", "k": "list", "i": 1, "neg": -1, "key": "x y", "h": {"z": 1, "y": 2, "last": "keylast", "size": 0}, "es": "", "f": False,
+    "xs": [10, 20, 30], "s": "hello", "k": "list", "i": 1, "neg": -1, "neg4": -4, "key": "x y", "h": {"z": 1, "y": 2, "last": "keylast", "size": 0}, "es": "", "f": False,
 }
 
 
 def gen_path(rng) -> dict[str, Any]:
     def seg_after(cur_kind: str):
-        return rng.choice(["a", "b", "c", "list", "x y", "size", "first", "last", "s", "e", "n", "z", "nope", 0, 1, 2, -1, -3, 5, ["k"], ["i"], ["neg"], ["key"], ["d", "s"], ["nope"], "0", "t"])
+        return rng.choice(SEGS)
 
     root = rng.choice(["d", "d", "d", "xs", "s", "h", "es", "nope", "f"])
     segs: list = [root]
@@ -508,7 +508,8 @@ def gen_path(rng) -> dict[str, Any]:
     return {"kind": "path", "segs": segs, "data": V.enc(PATH_DATA), "flags": flags, "async": rng.random() < 0.15}
 
 
-SEGS = ["a", "b", "c", "list", "x y", "size", "first", "last", "s", "e", "n", "z", "nope", 0, 1, 2, -1, -3, 5, ["k"], ["i"], ["neg"], ["key"], ["d", "s"], ["nope"], "0", "t"]
+# (indexes on both sides of both ends of a three-item sequence: -3 is its first item, -4 .. -7 are missing, not wrapped around)
+SEGS = ["a", "b", "c", "list", "x y", "size", "first", "last", "s", "e", "n", "z", "nope", 0, 1, 2, 3, -1, -2, -3, -4, -5, -6, -7, 5, ["k"], ["i"], ["neg"], ["neg4"], ["key"], ["d", "s"], ["nope"], "0", "t"]
 
 
 def enum_paths(ctx: core.Ctx):
@@ -518,7 +519,7 @@ def enum_paths(ctx: core.Ctx):
         for s1 in SEGS:
             tails: list = [[]]
             if root in ("d", "h"):
-                tails += [[s2] for s2 in ("size", "first", "last", 0, -1, "b", ["i"], "nope")]
+                tails += [[s2] for s2 in ("size", "first", "last", 0, -1, -3, -4, -6, 3, "b", ["i"], ["neg4"], "nope")]
             for tail in tails:
                 for is_async in (False, True):
                     for flags in ({}, {"string_first_and_last": True, "string_sequences": True}):
